@@ -723,6 +723,33 @@ def run(ctx):
             if nat[0] == "callback":
                 nat = ["callback", rng.randrange(ncb)]
             queue(run_case(mk(a, sv, d, ncb=ncb, fault=rng.choice([None, rng.randrange(0, 960)]), natural=nat), "mixed"))
+        # ---- the settings as SHIPPED (a fresh process that touches no setting): the overwrite must be refused -----------
+        import subprocess
+        d = os.path.join(tmp, "shipped_defaults"); os.makedirs(d)
+        src = os.path.join(d, "src.aoe2scenario")
+        with open(src, "wb") as f:
+            f.write(base(4))
+        before = sha(open(src, "rb").read())
+        child = ("import sys, io, contextlib\n"
+                 "from AoE2ScenarioParser.scenarios.aoe2_de_scenario import AoE2DEScenario\n"
+                 "with contextlib.redirect_stdout(io.StringIO()):\n"
+                 "    s = AoE2DEScenario.from_file(sys.argv[1])\n"
+                 "    try:\n"
+                 "        s.write_to_file(sys.argv[1])\n"
+                 "        r = 'ok'\n"
+                 "    except Exception as e:\n"
+                 "        r = 'error:' + type(e).__name__\n"
+                 "sys.stderr.write('RESULT ' + r + '\\n')\n")
+        pr = subprocess.run([sys.executable, "-c", child, src], capture_output=True, text=True, timeout=600, cwd=d,
+                            env={**os.environ, "PYTHONPATH": common.REPO, "PYTHONDONTWRITEBYTECODE": "1"})
+        res_line = next((l for l in pr.stderr.splitlines() if l.startswith("RESULT ")), "RESULT crash")
+        after = sha(open(src, "rb").read()) if os.path.exists(src) else None
+        R.case(key="shipped-defaults", nontrivial=True, tags=("settings:as-shipped",))
+        if not res_line.startswith("RESULT error") or after != before:
+            R.violation({"clause": "refused_by_default", "settings": "as shipped (untouched)", "observed": res_line[7:], "source": "old" if after == before else "changed"},
+                        f"a fresh process that touches no setting: write_to_file(<loaded path>) gives `{res_line[7:]}`, the source file is "
+                        f"{'unchanged' if after == before else 'CHANGED'}; with the default settings the overwrite has to be refused",
+                        {"op": "shipped-defaults"})
         R.extra["scenario_loads"] = dict(pool_stats)
         R.extra["violating_cases_by_clause"] = {}
         for sk, n in sig_count.items():
